@@ -45,6 +45,18 @@ def register(reg):
         return origin_fields_equal(eng, st, a, b)
 
     reg.ref_eq[ORIGIN] = origin_eq
+
+    # class invariant assumed for Origin objects: host and scheme are ASCII (RFC 3986 hosts; the
+    # package decodes them with .decode("ascii") at every connect)
+    is_ascii_bytes = z3.Function("is_ascii_bytes", BytesS, BoolS)
+
+    def origin_fact(eng, st, ref):
+        return z3.And(is_ascii_bytes(eng.heap_read(st, ref, "Origin.host").t), is_ascii_bytes(eng.heap_read(st, ref, "Origin.scheme").t))
+
+    origin_fact.unconditional = True  # fields of a null reference are arbitrary anyway
+    reg.ref_facts = dict(getattr(reg, "ref_facts", {}))
+    reg.ref_facts[ORIGIN] = origin_fact
+    reg.trusted_notes.append("class invariant assumed: Origin.host / Origin.scheme are ASCII bytes (no UnicodeDecodeError at connect)")
     # ground instances of "the empty dict has no key" for every key the package looks up
     # (quantifier-free on purpose: quantified axioms make every feasibility check time out)
     for key in ("timeout", "connect", "read", "write", "pool", "sni_hostname", "target", "trace", "reason_phrase", "network_stream"):
